@@ -2,6 +2,7 @@
 from __future__ import annotations
 
 import math
+import random
 from fractions import Fraction as F
 
 from .. import core, history, oracle, rulegen, rules, ruleprops
@@ -180,6 +181,29 @@ def satprofile_pairs(ctx, n):
         yield case, cfg
 
 
+def lazy_pairs(ctx, n):
+    """volume for the lazy scan (predicate only, no model run): approval elections of 5-7 projects and 6-10 voters with cost satisfaction
+    and a generous budget — several rounds, stored price bounds raised along the way; a third of them irresolute on tie-rich costs, where
+    the run forks and every branch keeps its own bounds.  The seed sweep at seed 17 missed C02-r3A (scan ordered by the initial bound) and
+    C02-r7A (branches sharing the project records): both need three or more rounds of a particular shape, i.e. volume"""
+    rng = ctx.rng
+    for k in range(n):
+        r = random.Random(rng.getrandbits(48))
+        irres = k % 3 == 0
+        m = r.randint(4, 5) if irres else r.randint(5, 7)
+        names = r.sample(["q%02d" % i for i in range(24)], m)
+        pool = r.choice([[2, 2, 3, 3, 4], [1, 2, 2, 3]]) if irres else r.choice([[30, 31, 40, 70, 72, 45, 55], [3, 4, 5, 7, 8, 9, 11], [2, 3, 5, 8, 13]])
+        projects = [(nm, F(r.choice(pool))) for nm in names]
+        tot = sum((c for _, c in projects), F(0))
+        nv = r.randint(4, 6) if irres else r.randint(6, 10)
+        distinct = [[x for x in names if r.random() < 0.5] or [names[0]] for _ in range(r.randint(3, 5))]
+        ballots = [list(r.choice(distinct)) for _ in range(nv)]
+        case = Case(projects, tot * F(r.choice([2, 3, 3, 4]), 4), "app", ballots, seed=r.getrandbits(40))
+        cfg = {"rule": "mes", "sat": r.choice(["Cost_Sat", "Cost_Sat", "Cardinality_Sat"]), "tie": "lexico", "res": not irres, "multi": r.random() < 0.3, "init": []}
+        ctx.count("stream", "lazy-scan volume:" + ("irresolute" if irres else "resolute"))
+        yield case, cfg
+
+
 def refuse_pairs(ctx, n):
     """the refusing tie-breaking rule: an exception on a real tie, a normal answer otherwise"""
     rng = ctx.rng
@@ -204,6 +228,7 @@ def run(ctx):
     items += ruleprops.run_items(ctx, neartie_pairs(ctx, ctx.scale(500, 5000)), predicate, nontrivial)  # round 6 (drawn last)
     items += ruleprops.run_items(ctx, negscore_pairs(ctx, ctx.scale(500, 5000)), predicate, nontrivial)
     items += ruleprops.run_items(ctx, refuse_pairs(ctx, ctx.scale(400, 4000)), predicate, nontrivial, compare=False)  # round 8 (drawn last)
+    items += ruleprops.run_items(ctx, lazy_pairs(ctx, ctx.scale(4000, 30000)), predicate, nontrivial, compare=False)
     ctx.extra["capped_runs"] = sum(1 for it in items if getattr(it, "capped", False))
     ctx.extra["binary_sat"] = {str(k): sum(1 for it in items if it.cfg.get("binary") == k) for k in (None, True, False)}
 
